@@ -108,7 +108,7 @@ class C15(Prop):
                             if quick and (np_ + nc + cap + closer + ctx.seed) % 3:
                                 continue
                             scen.append(f"qmt {cap} {np_} {nc} {rng.choice([5, 20, 60])} {closer} {rng.randrange(1, 10**6)} {jitter}")
-        out = ctx.run_impl(exe, scen, "queue-mt", timeout=1800)
+        out = ctx.run_impl(exe, scen, "queue-mt", timeout=300 if quick else 1800)
         traces = []
         for ln, o in zip(scen, out):
             f = ln.split()
